@@ -16,6 +16,7 @@ import Uft.Model.MemRegion
    MR FIX <0|1>                                       -> ok      (0 = the code as it is, 1 = the repaired probe; resets the cache)
    MR SPACE <start>:<stop>:<r|n>:<p|h|s>;…            -> ok      (the address space is now this: lines of /proc/self/maps)
    MR MEM <fillhex> <addr>:<hex>;…|-                  -> ok      (memory contents)
+   MR CHK <hexaddr>                                   -> chk=<0|1> now=<0|1> tidy=<0|1> n=<entries>   (check_mem_region alone; the cache is updated)
    MR STR <hexptr> <room>  /  MR OBJ <hexbase> <room> -> null | bad=<hex> | str=<hex|-> | fault=<hex> why=<pagecross|heapslack|stackslack|stale>
                                                          followed by " tidy=<0|1> n=<cache entries>"
    DUMPRAW <fixed 0|1> <size> <hex>                   -> v=<hex> wr=<bytes stored into the 8-byte temporary>
@@ -208,6 +209,13 @@ def stepMR (s : DS) (ws : List String) : DS × String :=
         | _ => none) v ";" with
     | some f, some l => ({ s with cont := { chunks := l, fill := UInt8.ofNat f } }, "ok")
     | _, _ => (s, "bad-op")
+  | ["CHK", p] =>
+    match parseHexNat p with
+    | some p =>
+      let k := Uft.MemRegion.check s.mrFixed s.cache s.space p
+      ({ s with cache := k.2 },
+       s!"chk={if k.1 then 1 else 0} now={if Uft.MemRegion.readable s.space p then 1 else 0} tidy={if k.2.tidy then 1 else 0} n={k.2.regions.length}")
+    | none => (s, "bad-op")
   | [op, p, room] =>
     match parseHexNat p, room.toNat? with
     | some p, some room =>
